@@ -542,3 +542,50 @@ Proof.
   destruct (api_history_gapped c (ops1 ++ ops2) Hc Hch Hco Hops) as (_ & (_ & _ & Hl2 & _) & _).
   rewrite Hl2. apply api_spec_never_rewritten_gapped; [exact Hops|]. rewrite <- Hl1. exact Hk.
 Qed.
+
+Theorem api_spec_never_rewritten_cont c ops1 ops2 k v : Forall api_arg_ok (ops1 ++ ops2) ->
+  s_map (fold_left (api_spec_cont c) ops1 spec_init) k = Some v ->
+  s_map (fold_left (api_spec_cont c) (ops1 ++ ops2) spec_init) k = Some v.
+Proof.
+  intros Hops. apply Forall_app in Hops as (H1 & H2). rewrite fold_left_app.
+  assert (Hs : SpecOk c (fold_left (api_spec_cont c) ops1 spec_init)).
+  { generalize (SpecOk_init c). generalize spec_init. induction ops1 as [|op tl IH]; intros s Hs; cbn [fold_left]; [exact Hs|].
+    inversion H1 as [|? ? Hop Htl]; subst. apply (IH Htl).
+    destruct op as [ns vec|G D vec]; cbn [api_spec_cont].
+    - assert (Hg : 0 <= resolve s ns) by (destruct ns; cbn; [exact Hop|destruct Hs; assumption]).
+      exact (proj1 (spec_step_count c s _ vec Hs Hg)).
+    - destruct (py_arrays_ok (s_cur s) (zlen vec) G D) eqn:Eok; [|exact Hs].
+      exact (proj1 (ascending_count c _ s Hs (py_ok_ascending _ vec G D Eok Hop))). }
+  revert Hs. generalize (fold_left (api_spec_cont c) ops1 spec_init).
+  induction ops2 as [|op tl IH]; intros s Hs Hk; cbn [fold_left]; [exact Hk|].
+  inversion H2 as [|? ? Hop Htl]; subst.
+  destruct (api_spec_cont_keeps c s op k v Hs Hop Hk) as (Hk' & Hs'). apply (IH Htl); assumption.
+Qed.
+
+(* continuous mode without compression / checksums: what was written stays readable with its value
+   (slots that were never written read as fill and may of course be written later) *)
+Theorem api_sample_never_changes_continuous_unchunked c ops1 ops2 k v :
+  vcfg c -> c_chunk c = false -> c_cont c = true -> Forall api_arg_ok (ops1 ++ ops2) ->
+  s_map (fold_left (api_spec_cont c) ops1 spec_init) k = Some v ->
+  lookup_st (p_w (fold_left (api_state c) ops1 py_init)) k = Some v /\
+  lookup_st (p_w (fold_left (api_state c) (ops1 ++ ops2) py_init)) k = Some v.
+Proof.
+  intros Hc Hch Hco Hops Hk.
+  pose proof Hops as Hops'. apply Forall_app in Hops' as (H1 & _).
+  destruct (api_history_continuous_unchunked c ops1 Hc Hch Hco H1) as (_ & HR1 & _).
+  destruct (api_history_continuous_unchunked c (ops1 ++ ops2) Hc Hch Hco Hops) as (_ & HR2 & _).
+  split; [exact (ru_written _ _ _ HR1 k v Hk)|].
+  apply (ru_written _ _ _ HR2 k v). apply api_spec_never_rewritten_cont; assumption.
+Qed.
+
+Theorem api_sample_never_changes_continuous_chunked c ops1 ops2 k v :
+  vcfg c -> c_chunk c = true -> c_cont c = true -> Forall api_arg_ok (ops1 ++ ops2) ->
+  lookup_st (p_w (fold_left (api_state c) ops1 py_init)) k = Some v ->
+  lookup_st (p_w (fold_left (api_state c) (ops1 ++ ops2) py_init)) k = Some v.
+Proof.
+  intros Hc Hch Hco Hops Hk.
+  pose proof Hops as Hops'. apply Forall_app in Hops' as (H1 & _).
+  destruct (api_history_continuous_chunked c ops1 Hc Hch Hco H1) as (_ & (_ & _ & Hl1 & _) & _).
+  destruct (api_history_continuous_chunked c (ops1 ++ ops2) Hc Hch Hco Hops) as (_ & (_ & _ & Hl2 & _) & _).
+  rewrite Hl2. apply api_spec_never_rewritten_cont; [exact Hops|]. rewrite <- Hl1. exact Hk.
+Qed.
